@@ -38,6 +38,21 @@ fn alphabet() -> Vec<&'static str> {
     ]
 }
 
+/// Failing programs longer than the sequence space reaches: functions that never return, alone
+/// and entangled with a function that does.
+fn fixed_programs() -> Vec<&'static str> {
+    vec![
+        // a called function that loops forever
+        "main:\n    jal ra, spin\n    li a7, 10\n    ecall\nspin:\n    addi a0, a0, -1\n    j spin\n",
+        // the same, entered also by fall-through from an earlier function that returns on another path
+        "main:\n    li a0, 1\n    jal ra, outer\n    jal ra, spin\n    li a7, 10\n    ecall\nouter:\n    beq a0, zero, done\nspin:\n    addi a0, a0, -1\n    j spin\ndone:\n    ret\n",
+        // ... and by a jump from it
+        "main:\n    jal ra, outer\n    jal ra, spin\n    li a7, 10\n    ecall\nouter:\n    beq a0, zero, done\n    j spin\ndone:\n    ret\nspin:\n    addi a0, a0, -1\n    j spin\n",
+        // a never-returning function that calls a returning one
+        "main:\n    jal ra, spin\n    li a7, 10\n    ecall\nspin:\n    jal ra, leaf\n    j spin\nleaf:\n    ret\n",
+    ]
+}
+
 impl C16 {
     pub fn new() -> C16 {
         let alpha = alphabet();
@@ -52,6 +67,10 @@ impl C16 {
         tier.pick(&self.quick, &self.thorough)
     }
     fn text(&self, tier: Tier, case: u64) -> String {
+        let n = self.space(tier).count();
+        if case >= n {
+            return fixed_programs()[(case - n) as usize].to_string();
+        }
         let mut s = String::new();
         for i in self.space(tier).decode(case) {
             s.push_str(self.alpha[i]);
@@ -64,8 +83,13 @@ impl C16 {
         let run = match imp::analyze_text(text) {
             Ok(r) => r,
             Err(p) => {
+                // a panic is an analysis failure explained nowhere in the user's files
                 acc.count("analysis_panicked", 1);
-                acc.outcome(&format!("panic:{}", p.0.chars().take(40).collect::<String>()), case);
+                acc.violation(
+                    "C16|analysis-failure-without-a-located-explanation|panic".to_string(),
+                    case,
+                    json!({"source": text, "panic": p.0.chars().take(200).collect::<String>()}),
+                );
                 return;
             }
         };
@@ -217,7 +241,7 @@ impl Property for C16 {
         "C16"
     }
     fn cases(&self, tier: Tier) -> u64 {
-        self.space(tier).count()
+        self.space(tier).count() + fixed_programs().len() as u64
     }
     fn chunk(&self, _tier: Tier) -> u64 {
         3000
